@@ -499,7 +499,7 @@ SUBCHECKS = [
     SubCheck("lattice", oracle_history, enum=enum_lattice,
              quick=(4, None), thorough=(4, None)),
     SubCheck("single_window", oracle_history, gen=single_cases,
-             quick=(8, 500), thorough=(16, 3200)),
+             quick=(8, 800), thorough=(16, 3200)),
     SubCheck("history", oracle_history, gen=history_cases,
-             quick=(4, 100), thorough=(8, 500)),
+             quick=(4, 200), thorough=(8, 400)),
 ]
